@@ -156,6 +156,13 @@ func c05Templates() []*c05Query {
 			where: "({n} + 1 > 2 & {n} * 2 < 30 & {n} != 5) | ({u} + 'x' = 'Ax' & {u} != 'B' & strlen({u}) = 1)", kind: "plain"},
 		{tag: "limit", lead: []string{"key"}, aliases: []c05Alias{{"n", "int(value)", I}}, extra: []string{"join(',', {n}, {n})"}, where: "{n} > 2", suffix: " limit 1, 3", kind: "limit"},
 		{tag: "group-by", aliases: []c05Alias{{"g", "int(value) / 4", I}, {"c", "count(1)", I}, {"s", "sum({g})", I}}, where: "{g} >= 1", suffix: " group by {g}", kind: "group"},
+		// statement shapes of buildFinalPlan not covered above (Model/CachePlans.v): limit over order, the dropped
+		// `order by key asc`, order / order + limit over the aggregate node, the pushed-down limit
+		{tag: "order-limit", lead: []string{"key"}, aliases: []c05Alias{{"n", "int(value)", I}}, where: "{n} > 2", suffix: " order by {n} desc, key limit 1, 2", kind: "order"},
+		{tag: "order-by-key-asc-limit", lead: []string{"key"}, aliases: []c05Alias{{"n", "int(value)", I}, {"m", "{n} + 1", I}}, where: "{m} > 3", suffix: " order by key limit 1, 2", kind: "order"},
+		{tag: "group-order", aliases: []c05Alias{{"g", "int(value) / 4", I}, {"c", "count(1)", I}, {"s", "sum({g} + 1)", I}}, where: "{g} >= 0", suffix: " group by {g} order by {s} desc, {g}", kind: "group"},
+		{tag: "group-order-limit", aliases: []c05Alias{{"g", "strlen(value)", I}, {"c", "count({g})", I}, {"m", "max({g} * 2)", I}}, where: "{g} >= 1", suffix: " group by {g} order by {g} desc limit 1, 2", kind: "group"},
+		{tag: "group-limit", aliases: []c05Alias{{"g", "int(value) / 2", I}, {"s", "sum({g})", I}}, where: "{g} >= 1", suffix: " group by {g} limit 1, 2", kind: "group"},
 		{tag: "group-by-two", aliases: []c05Alias{{"n", "int(value)", I}, {"p", "{n} / 3", I}, {"m", "max({n} + {p})", I}}, where: "{n} > 2 | {p} = 0", suffix: " group by {n}, {p}", kind: "group"},
 	}
 }
@@ -724,6 +731,11 @@ func (cr *c05Run) combo(qy *c05Query, st [][2]string, path string, B, k int, coq
 		}
 	}()
 
+	// ---- statement level (ORDER BY / LIMIT / GROUP BY): the composed twins with the cache switch
+	if coq && qy.kind != "plain" {
+		cr.c5lStmtCase(qy, qa, st, path, B, k, runs[key{true, false, true}], runs[key{true, false, false}],
+			runs[key{true, true, true}], runs[key{true, true, false}])
+	}
 	// ---- the chunk caches: ExecuteBatch sequences on one context, and ProjectionPlan.Batch drains
 	if modelled && proj != nil && wexpr != nil {
 		cr.vecCases(qa, proj, wexpr, st, B, rp, namesTerm, fieldsTerm, whereTerm, true,
@@ -1087,12 +1099,13 @@ func runC05(c *runCtx) error {
 	// (the shared generator's streams for seeds s and s+1 are the same stream shifted by one draw:
 	// spread the seeds far apart)
 	r := newRng(c.seed*1000003 + 0xC05)
-	header := "From Coq Require Import List String ZArith.\nFrom KV Require Import Base.Bytes Model.Ast Model.Value Corr.EvalCommon Corr.C05.\nImport C05.Vec.\nImport ListNotations.\nOpen Scope string_scope.\n"
+	header := "From Coq Require Import List String ZArith.\nFrom KV Require Import Base.Bytes Model.Ast Model.Value Model.SelectPlans Corr.EvalCommon Corr.C03Stmt Corr.C05.\nFrom KV Require Model.Order Spec.Group.\nImport C05.Vec.\nImport C05.Stmt.\nImport ListNotations.\nOpen Scope string_scope.\n"
 	e := newEmitter(c.out, "C05", header, 150)
-	e.m.Rule = "19 fixed statement shapes (aliases used in WHERE, in join/ilist/list arguments, under !, as IN-list items and BETWEEN bounds, under [i], alias of alias, use before definition, a name defined twice, ORDER BY, LIMIT, GROUP BY with aggregates of aliases) x batch size B in {1,2,3,32} x stores whose first k scanned pairs fail the filter for every k in 0..B+1 (B=32, quick tier: k in {0,1,2,31,32,33}) followed by an accepted, a rejected, an accepted and 0-2 mixed pairs x access paths {full, prefix, range, point reads}; plus seeded random statements with 1-3 aliased fields over typed definitions; every combination is run row-at-a-time and in batches, cache on and off, with the names and with the definitions written out; non-trivial = some pair rejected and some returned, with an alias used in WHERE; distinct = distinct (statement, store) terms"
+	e.m.Rule = "24 fixed statement shapes (aliases used in WHERE, in join/ilist/list arguments, under !, as IN-list items and BETWEEN bounds, under [i], alias of alias, use before definition, a name defined twice, ORDER BY, LIMIT, GROUP BY with aggregates of aliases, and their combinations: every plan shape of buildFinalPlan) x batch size B in {1,2,3,32} x stores whose first k scanned pairs fail the filter for every k in 0..B+1 (B=32, quick tier: k in {0,1,2,31,32,33}) followed by an accepted, a rejected, an accepted and 0-2 mixed pairs x access paths {full, prefix, range, point reads}; plus seeded random statements with 1-3 aliased fields over typed definitions; every combination is run row-at-a-time and in batches, cache on and off, with the names and with the definitions written out; non-trivial = some pair rejected and some returned, with an alias used in WHERE; distinct = distinct (statement, store) terms; every ORDER BY / LIMIT / GROUP BY combination additionally as a CStmt case (Model/CachePlans.v: the composed twins with the cache switch against the four drains row/batch x cache on/off); 4 statements whose aggregate select field also uses a field name, B in {1,2,32} (direct verdict only)"
 	cr := &c05Run{e: e}
 	cr.cyclicCases(c)
 	cr.vecCollisionCases()
+	cr.c5lMixedAggregateCases()
 	Bs := []int{1, 2, 3, 32}
 	ks := func(B int) []int {
 		if B == 32 && !c.thorough() {
